@@ -373,9 +373,16 @@ def family_starve(tier, seed, n=None):
             for cv, dv in [(4, 6), (2, 5), (0, 7), (5, 5)]:
                 ops += [{"op": "set", "p": "o1.c", "v": bits(cv, 3)}, {"op": "set", "p": "o1.d", "v": bits(dv, 3)}, dict(ex)]
         else:
-            fields = [fld("a", 3, True), fld("b", 1, False), fld("c", 3, True, rand=False, init=-2)]
-            vs = rnd.sample([-4, -3, -2, -1, 1, 2, 3], 3)
-            body = [E({"k": "in", "e": F("a"), "items": [{"k": "v", "e": lit(v)} for v in vs] + ([{"k": "v", "e": F("c")}] if t % 8 >= 4 else []), "neg": False})]
+            # a domain of SEVERAL parts on a field wider than the parts: single values (negative ones too) and short ranges whose
+            # low bits also occur in another part (1 and 5, -3 and 1 ...)
+            sg = t % 8 < 4
+            fields = [fld("a", 3 if sg else 4, sg), fld("b", 1, False), fld("c", 3, True, rand=False, init=-2)]
+            if sg:
+                vs = rnd.sample([-4, -3, -2, -1, 3], 2) + [-3 if t % 16 < 8 else -1]
+                items = [{"k": "v", "e": lit(v)} for v in vs] + [{"k": "r", "lo": lit(1), "hi": lit(2)}]
+            else:
+                items = [{"k": "r", "lo": lit(1), "hi": lit(2)}, {"k": "v", "e": lit(5)}, {"k": "v", "e": lit(rnd.choice([9, 10, 13]))}, {"k": "r", "lo": lit(6), "hi": lit(7)}]
+            body = [E({"k": "in", "e": F("a"), "items": items + ([{"k": "v", "e": F("c")}] if sg and t % 16 >= 8 else []), "neg": False})]
             ex = {"op": "explore", "call": mcall(), "paths": ["o1.a", "o1.b"], "max_paths": mp}
             ops += [dict(ex), {"op": "call", "call": mcall()}, {"op": "set", "p": "o1.c", "v": bits(-4, 3)}, dict(ex)]
         out.append({"id": "S14/%s/%s/%d" % (kind, "core" if core else "s%d" % seed, t), "world": one(fields, [blk("c1", body)]), "ops": ops, "tags": []})
